@@ -317,6 +317,7 @@ def run(ctx, rep):
     # hand the items to the fat constructor, which must then write exactly that many slots (or panic)
     c06.rule_lenflow(ctx, rep)
     c06.rule_iterloop(ctx, rep)
+    c05.rule_layout(ctx, rep)  # ... in a block sized for that many (a size computation that wraps leaves the recorded length without elements behind it)
     rep.floor("R-THIN-CTOR", 2, "the typestate entry and at least one checked call site (today 3 instances)")
     rep.floor("R-PROT-MUT", 4, "header_mut, slice_mut, private field, no DerefMut")
     rep.floor("R-THICK", 3, "the re-fattening helper + at least two users (today 6)")
